@@ -10,6 +10,7 @@ import (
 //verif:harness VerifC03_Chain quick.maxpaths=60000 thorough.maxpaths=400000 timeout=2400
 //verif:harness VerifC03_Assigned quick.maxpaths=20000 thorough.maxpaths=100000 timeout=1800
 //verif:harness VerifC03_Reuse quick.maxpaths=40000 thorough.maxpaths=200000 timeout=2400
+//verif:harness VerifC03_Paths quick.maxpaths=40000 thorough.maxpaths=200000 timeout=2400
 
 type zzC03Struct struct{ A int }
 
@@ -442,4 +443,78 @@ func VerifC03_Assigned() {
 	zzAssert(!strings.Contains(out, "NEVER"), "C03.assigned.later-chain-else")
 	zzAssert(strings.Contains(out, "display:none") == !cur, "C03.assigned.v-show")
 	zzAssert(strings.Contains(out, "data-r=") == cur, "C03.assigned.bound-attribute")
+}
+
+// VerifC03_Paths: the value is reached through a path (a field, an index,
+// two indexes in a row, bracketed keys) and the condition is the path or its
+// negation: the truthiness rule applies to the value reached, the same in
+// every position. Values are concrete choices so that the real expression VM
+// runs where the condition goes through it.
+func VerifC03_Paths() {
+	var v any
+	var truthy bool
+	switch zzChoice("value", 14) {
+	case 0:
+		v, truthy = false, false
+	case 1:
+		v, truthy = true, true
+	case 2:
+		v, truthy = 0, false
+	case 3:
+		v, truthy = 3, true
+	case 4:
+		v, truthy = "", false
+	case 5:
+		v, truthy = "x", true
+	case 6:
+		v, truthy = uint8(0), false
+	case 7:
+		v, truthy = uint8(7), true
+	case 8:
+		v, truthy = 0.0, false
+	case 9:
+		v, truthy = 1.5, true
+	case 10:
+		v, truthy = nil, false
+	case 11:
+		v, truthy = []int{}, true
+	case 12:
+		v, truthy = zzC03MyInt(0), false
+	case 13:
+		v, truthy = int64(-1), true
+	}
+	paths := []string{"v", "o.v", "l[0]", "g[0][1]", "m['k']['v']", "o.l[1].v", "g[1][0]"}
+	path := paths[zzChoice("path", len(paths))]
+	neg := zzBool("negated")
+	e := path
+	if neg {
+		e = "!" + path
+		truthy = !truthy
+	}
+	tpl := `<p v-if="` + e + `">P-IF</p><p v-else>P-ELSE</p>` +
+		`<q v-if="no">x</q><q v-else-if="` + e + `">Q-ELIF</q><q v-else>Q-ELSE</q>` +
+		`<s v-show="` + e + `">S</s>` +
+		`<a :data-x="` + e + `">A</a>` +
+		`<b :class="{on: ` + e + `}">B</b>`
+	data := map[string]any{
+		"no": false,
+		"v":  v,
+		"o":  map[string]any{"v": v, "l": []any{1, map[string]any{"v": v}}},
+		"l":  []any{v},
+		"g":  []any{[]any{7, v}, []any{v, 0}},
+		"m":  map[string]any{"k": map[string]any{"v": v}},
+	}
+	out, err := zzRenderVia(zzEntry(), nil, nil, tpl, data)
+	zzNote("template", tpl)
+	zzNote("out", out)
+	if err != nil {
+		zzNote("err", err.Error())
+	}
+	zzAssert(err == nil, "C03.paths.render-error")
+	zzAssert(strings.Contains(out, "P-IF") == truthy, "C03.paths.v-if")
+	zzAssert(strings.Contains(out, "P-ELSE") == !truthy, "C03.paths.v-else")
+	zzAssert(strings.Contains(out, "Q-ELIF") == truthy, "C03.paths.v-else-if")
+	zzAssert(strings.Contains(out, "display:none") == !truthy, "C03.paths.v-show")
+	zzAssert(strings.Contains(out, "data-x=") == truthy, "C03.paths.bound-attr")
+	zzAssert(strings.Contains(out, `class="on"`) == truthy, "C03.paths.class-object")
 }
